@@ -49,6 +49,13 @@ def gen_source(rng, n_funcs):
         else:
             src.append(head + body + "\n\n")
         metas.append({"qual": ("C%d.f%d" % (i, i)) if method else "f%d" % i, "method": method, "params": meta, "ret": ret_anno})
+    # systematic part: every kind of source annotation once with a None default, once with another default, once without
+    for a_i, anno in enumerate(ANNOS):
+        i = n_funcs + a_i
+        src.append("def f%d(p0: %s = None, p1: %s = 1, *, p2: %s, p3=None) -> %s:\n    return None\n\n\n" % (i, anno, anno, anno, anno))
+        metas.append({"qual": "f%d" % i, "method": False, "ret": anno,
+                      "params": [{"name": "p0", "anno": anno, "default": "None"}, {"name": "p1", "anno": anno, "default": "1"},
+                                 {"name": "p2", "anno": anno, "default": None}, {"name": "p3", "anno": None, "default": "None"}]})
     return "".join(src), metas
 
 
